@@ -245,15 +245,19 @@ class _(Contract):
         from y0vc.values import VFunc
         if env.get("cls") == "CLS":
             env["cls"] = VFunc("class", ex.repo.resolve(f"{D}.Product"))
+        from y0vc.values import VComp
         a = super().adapt(ex, env)
         a.single = isinstance(a.expressions, VExpr)
-        if not a.single:
+        a.opaque = isinstance(a.expressions, VComp)      # a product over an index set of nodes: not interpreted (shape layer only)
+        if not a.single and not a.opaque:
             a.expressions = _seq_arg(ex, a.expressions)
             env["expressions"] = a.expressions
         return a
 
     def _want(self, ex, a):
         T = theory(ex)
+        if a.opaque:
+            return z3.BoolVal(False), z3.RealVal(0)
         if a.single:
             return T.ok(a.expressions.t), T.den(a.expressions.t)
         return T.OKS(a.expressions.t), T.PROD(a.expressions.t)
